@@ -58,6 +58,16 @@ fn mn_strategy(t: Tier) -> BoxedStrategy<MnCase> {
 
 fn mn_strategy_small(t: Tier) -> BoxedStrategy<MnCase> {
     let (maxr, maxc) = t.pick((12usize, 24usize), (20, 48));
+    mn_strategy_dims(maxr, maxc)
+}
+/// matrices of a few dozen rows and up to 160 columns (row weights and node counts beyond 64)
+fn mn_strategy_medium(_t: Tier) -> BoxedStrategy<MnCase> {
+    mn_strategy_dims(64, 160).prop_map(|mut c| {
+        c.search_tries = c.search_tries.min(8);
+        c
+    }).boxed()
+}
+fn mn_strategy_dims(maxr: usize, maxc: usize) -> BoxedStrategy<MnCase> {
     (
         // slack 3 stands for -1: a maximum row weight below what the column weights need (must fail, or at least never exceed wr)
         (prop_oneof![1 => Just(1usize), 20 => 2..=maxr], prop_oneof![1 => Just(1usize), 20 => 2..=maxc], prop_oneof![1 => Just(0usize), 30 => 1usize..=4], prop_oneof![6 => Just(0usize), 2 => Just(1usize), 2 => Just(2usize), 1 => Just(3usize)], any::<bool>()),
@@ -182,6 +192,10 @@ fn peg_strategy(t: Tier) -> BoxedStrategy<PegCase> {
     (1..=maxr, 1..=maxc, 1usize..=5, any::<u64>()).prop_map(|(nrows, ncols, wc, seed)| PegCase { nrows, ncols, wc, seed }).boxed()
 }
 
+fn peg_strategy_medium(_t: Tier) -> BoxedStrategy<PegCase> {
+    (11usize..=48, 21usize..=120, 1usize..=4, any::<u64>()).prop_map(|(nrows, ncols, wc, seed)| PegCase { nrows, ncols, wc, seed }).boxed()
+}
+
 /// exists an order of `rows` in which each entry was a legal greedy PEG choice
 fn peg_valid_order(prev: &Mat, col: usize, rows: &[usize]) -> bool {
     fn rec(h: &mut Mat, col: usize, remaining: &mut Vec<usize>) -> bool {
@@ -260,6 +274,22 @@ pub fn property() -> Property {
                 strategy: mn_strategy,
                 check: check_mn,
                 health: &[("run-succeeded", 0.30), ("search-range-mixed", 0.07), ("backtracking-or-girth-retry-mattered", 0.015)],
+            }),
+            Box::new(Sub {
+                name: "mackay-neal-medium",
+                rule: "the same generator and oracle with rows up to 64 and columns up to 160 (row weights, node counts and girth-search frontiers beyond 64), search ranges of at most 8 seeds",
+                cases: |t| t.pick(2_000, 40_000),
+                strategy: mn_strategy_medium,
+                check: check_mn,
+                health: &[],
+            }),
+            Box::new(Sub {
+                name: "peg-medium",
+                rule: "the same oracle with 11..=48 rows, 21..=120 columns, wc 1..=4",
+                cases: |t| t.pick(1_500, 30_000),
+                strategy: peg_strategy_medium,
+                check: check_peg,
+                health: &[],
             }),
             Box::new(Sub {
                 name: "peg",
